@@ -499,6 +499,85 @@ func ruleR023(c *Ctx) {
 				}
 				return true
 			})
+			// the purity of a generated child has to count: it reaches a returned value of the function (directly or
+			// through variables it is conjoined into) or it guards something. A helper that generates the body of a
+			// closure and keeps the purity to itself (stores it into the closure value only) makes the literal look pure
+			// to its caller: `func sample(n) numbers(n).map(i->tick()).sum()` becomes a constant function
+			if len(ps) > 0 {
+				reach := map[types.Object]bool{}
+				inspectNoLit(gi.decl.Body, func(n ast.Node) bool {
+					if r, ok := n.(*ast.ReturnStmt); ok {
+						for _, e := range r.Results {
+							if _, isLit := ast.Unparen(e).(*ast.FuncLit); isLit {
+								continue
+							}
+							ast.Inspect(e, func(y ast.Node) bool {
+								if _, isLit := y.(*ast.FuncLit); isLit {
+									return false
+								}
+								if id, ok := y.(*ast.Ident); ok {
+									if o := info.ObjectOf(id); o != nil {
+										reach[o] = true
+									}
+								}
+								return true
+							})
+						}
+					}
+					if ifs, ok := n.(*ast.IfStmt); ok {
+						ast.Inspect(ifs.Cond, func(y ast.Node) bool {
+							if id, ok := y.(*ast.Ident); ok {
+								if o := info.ObjectOf(id); o != nil {
+									reach[o] = true
+								}
+							}
+							return true
+						})
+					}
+					return true
+				})
+				for changed := true; changed; {
+					changed = false
+					inspectNoLit(gi.decl.Body, func(n ast.Node) bool {
+						as, ok := n.(*ast.AssignStmt)
+						if !ok || len(as.Lhs) != len(as.Rhs) {
+							return true
+						}
+						for i, l := range as.Lhs {
+							id, ok := l.(*ast.Ident)
+							if !ok || !reach[info.ObjectOf(id)] {
+								continue
+							}
+							ast.Inspect(as.Rhs[i], func(y ast.Node) bool {
+								if _, isLit := y.(*ast.FuncLit); isLit {
+									return false
+								}
+								if rid, ok := y.(*ast.Ident); ok {
+									if o := info.ObjectOf(rid); o != nil && !reach[o] {
+										reach[o] = true
+										changed = true
+									}
+								}
+								return true
+							})
+						}
+						return true
+					})
+				}
+				seenObj := map[types.Object]bool{}
+				for _, p := range ps {
+					if seenObj[p.obj] {
+						continue
+					}
+					seenObj[p.obj] = true
+					key := fmt.Sprintf("%s#purity-counts:%s", gname, p.obj.Name())
+					if reach[p.obj] {
+						c.OK(key, p.as.Pos(), "the purity of the generated child reaches a result of the function or guards a decision")
+					} else {
+						c.Violation(key, p.as.Pos(), "the purity result %s of generating %s neither reaches a result of %s nor guards a decision: the caller cannot conjoin it, so an expression that creates an impure closure looks pure, a function around it is folded into a constant, and calls of impure functions inside run while Generate runs instead of at every evaluation", p.obj.Name(), nodeStr(c.Fset, p.as.Lhs[0]), gi.decl.Name.Name)
+					}
+				}
+			}
 			gg := c.CFG(gi.decl)
 			for i, first := range ps {
 				for j, second := range ps {
